@@ -63,6 +63,18 @@ def gen_case(rng, idx, tier):
     if r < 0.9:
         A = gen.curve(rng, p=rng.choice([2, 3]), nint=rng.choice([0, 0, 1]), maxmult=1, dim=2, rational=False)
         B = gen.curve(rng, p=rng.choice([1, 2, 3]), nint=0, dim=2, rational=False)
+        red = rng.random()
+        if red < 0.25:
+            # reducible representations: a straight segment stored at a higher degree, constant weights
+            seg = gen.curve(rng, p=1, nint=0, dim=2, rational=False)
+            el = ref.elevate(lib.case_rc(seg["U"], seg["P"], None), rng.choice([1, 2]))
+            which = {"U": el.U, "P": [list(pt) for pt in el.P], "W": [F(2)] * len(el.P) if rng.random() < 0.4 else None}
+            if rng.random() < 0.5:
+                A = which
+            else:
+                B = which
+        elif red < 0.35:
+            B = dict(B, W=[F(1)] * len(B["P"]))
         return {"kind": "bezier", "A": cv.enc_curve(A, "float"), "B": cv.enc_curve(B, "float")}
     # line through the origin against the unit quarter circle (rational quadratic)
     ang = F(rng.randint(5, 85))
